@@ -34,7 +34,7 @@ use serde::{Deserialize, Serialize};
 
 use crate::{
     cache::PreprocessorCacheModeConfig,
-    util::{encode_path, Digest, HashToDigest, MetadataCtimeExt, Timestamp},
+    util::{encode_path, Digest, HashToDigest, MetadataCtimeExt, TimeMacroFinder, Timestamp},
 };
 
 use super::Language;
@@ -180,8 +180,10 @@ impl PreprocessorCacheEntry {
         updated: &mut bool,
     ) -> Option<String> {
         // Check newest result first since it's more likely to match.
-        for (digest, includes) in self.results.iter_mut().rev() {
-            let result_matches = Self::result_matches(digest, includes, config, updated);
+        // Lookups do not modify the entry (any more); `updated` is left untouched.
+        let _ = updated;
+        for (digest, includes) in self.results.iter().rev() {
+            let result_matches = Self::result_matches(includes, config);
             if result_matches {
                 return Some(digest.to_string());
             }
@@ -190,12 +192,7 @@ impl PreprocessorCacheEntry {
     }
 
     /// A result matches if all of its include files exist on disk and have not changed.
-    fn result_matches(
-        digest: &str,
-        includes: &mut [IncludeEntry],
-        config: PreprocessorCacheModeConfig,
-        updated: &mut bool,
-    ) -> bool {
+    fn result_matches(includes: &[IncludeEntry], config: PreprocessorCacheModeConfig) -> bool {
         for include in includes {
             let path = Path::new(include.path.as_os_str());
             let meta = match std::fs::symlink_metadata(path) {
@@ -215,7 +212,10 @@ impl PreprocessorCacheEntry {
                 }
             };
 
-            if config.file_stat_matches {
+            // The digest of an include that mentions `__DATE__` or `__TIMESTAMP__` also
+            // covers the expansion of those macros (see `include_file_digest`), which
+            // the stat information says nothing about.
+            if config.file_stat_matches && !include.digest.contains('-') {
                 match (include.mtime, include.ctime) {
                     (Some(mtime), Some(ctime)) if config.use_ctime_for_stat => {
                         let mtime_matches = meta.modified().map(Into::into).ok() == Some(mtime);
@@ -282,9 +282,6 @@ impl PreprocessorCacheEntry {
                         return false;
                     }
                 };
-                if !finder.found_time_macros() && include.digest != new_digest {
-                    return false;
-                }
                 if finder.found_time() {
                     // We don't know for sure that the program actually uses the __TIME__ macro,
                     // but we have to assume it anyway and hash the time stamp. However, that's
@@ -295,60 +292,21 @@ impl PreprocessorCacheEntry {
                     return false;
                 }
 
-                // __DATE__ or __TIMESTAMP__ found. We now make sure that the digest changes
-                // if the (potential) expansion of those macros changes by computing a new
-                // digest comprising the file digest and time information that represents the
-                // macro expansions.
-                let mut new_digest = Digest::new();
-                new_digest.update(digest.as_bytes());
-
-                if finder.found_date() {
-                    debug!("found __DATE__ in {}", path.display());
-                    new_digest.delimiter(b"date");
-                    let date = chrono::Local::now().date_naive();
-                    new_digest.update(&date.year().to_le_bytes());
-                    new_digest.update(&date.month().to_le_bytes());
-                    new_digest.update(&date.day().to_le_bytes());
-
-                    // If the compiler has support for it, the expansion of __DATE__ will change
-                    // according to the value of SOURCE_DATE_EPOCH. Note: We have to hash both
-                    // SOURCE_DATE_EPOCH and the current date since we can't be sure that the
-                    // compiler honors SOURCE_DATE_EPOCH.
-                    if let Ok(source_date_epoch) = std::env::var("SOURCE_DATE_EPOCH") {
-                        new_digest.update(source_date_epoch.as_bytes())
-                    }
-                }
-
-                if finder.found_timestamp() {
-                    debug!("found __TIMESTAMP__ in {}", path.display());
-                    let meta = match std::fs::symlink_metadata(path) {
-                        Ok(meta) => meta,
-                        Err(e) => {
-                            debug!(
-                                "{} is in a preprocessor cache entry but can't be read ({})",
-                                path.display(),
-                                e
-                            );
-                            return false;
-                        }
-                    };
-                    let mtime = match meta.modified() {
-                        Ok(mtime) => mtime,
-                        Err(_) => {
-                            debug!(
-                                "Couldn't get mtime of {} which contains __TIMESTAMP__",
-                                path.display()
-                            );
-                            return false;
-                        }
-                    };
-                    let mtime: chrono::DateTime<chrono::Local> = chrono::DateTime::from(mtime);
-                    new_digest.delimiter(b"timestamp");
-                    new_digest.update(&mtime.naive_local().and_utc().timestamp().to_le_bytes());
-                    include.digest = new_digest.finish();
-                    // Signal that the preprocessor cache entry has been updated and needs to be
-                    // written to disk.
-                    *updated = true;
+                // If __DATE__ or __TIMESTAMP__ is found, the recorded digest also covers the
+                // (potential) expansion of those macros at the time of recording: compare it
+                // with the same digest computed now, so that the result stops matching when
+                // the contents or the expansions change.
+                let mtime = if finder.found_timestamp() {
+                    std::fs::metadata(path)
+                        .and_then(|meta| meta.modified())
+                        .ok()
+                        .map(Into::into)
+                } else {
+                    None
+                };
+                if include_file_digest(new_digest, &finder, mtime).as_ref() != Some(&include.digest)
+                {
+                    return false;
                 }
             }
         }
@@ -392,6 +350,48 @@ impl PreprocessorCacheEntry {
                 .collect(),
         )
     }
+}
+
+/// The digest recorded for an include file (and mixed into the preprocessor
+/// cache key for the input file), given the digest of its contents and the
+/// outcome of the time macro scan.
+///
+/// If the text mentions `__DATE__` or `__TIMESTAMP__`, a digest of what these
+/// macros (potentially) expand to - the current date, resp. the modification
+/// time of the file - is appended after a `-`, so that the result is different
+/// from any plain content digest and changes when the expansion changes.
+/// Returns `None` if the modification time is needed but not known.
+pub fn include_file_digest(
+    content_digest: String,
+    finder: &TimeMacroFinder,
+    mtime: Option<Timestamp>,
+) -> Option<String> {
+    if !finder.found_date() && !finder.found_timestamp() {
+        return Some(content_digest);
+    }
+    let mut time_digest = Digest::new();
+    if finder.found_date() {
+        time_digest.delimiter(b"date");
+        let date = chrono::Local::now().date_naive();
+        time_digest.update(&date.year().to_le_bytes());
+        time_digest.update(&date.month().to_le_bytes());
+        time_digest.update(&date.day().to_le_bytes());
+
+        // If the compiler has support for it, the expansion of __DATE__ will change
+        // according to the value of SOURCE_DATE_EPOCH. Note: We have to hash both
+        // SOURCE_DATE_EPOCH and the current date since we can't be sure that the
+        // compiler honors SOURCE_DATE_EPOCH.
+        if let Ok(source_date_epoch) = std::env::var("SOURCE_DATE_EPOCH") {
+            time_digest.update(source_date_epoch.as_bytes())
+        }
+    }
+    if finder.found_timestamp() {
+        time_digest.delimiter(b"timestamp");
+        mtime?.hash(&mut HashToDigest {
+            digest: &mut time_digest,
+        });
+    }
+    Some(format!("{}-{}", content_digest, time_digest.finish()))
 }
 
 /// Environment variables that are factored into the preprocessor cache entry cached key.
@@ -479,7 +479,16 @@ pub fn preprocessor_cache_entry_hash_key(
             debug!("Found __TIME__ in {}", input_file.display());
             return Ok(None);
         }
-        digest
+        // The expansions of __DATE__ and __TIMESTAMP__ in the input file are
+        // part of the result as well.
+        let mtime = std::fs::metadata(input_file)
+            .and_then(|meta| meta.modified())
+            .ok()
+            .map(Into::into);
+        match include_file_digest(digest, &finder, mtime) {
+            Some(digest) => digest,
+            None => return Ok(None),
+        }
     };
     m.update(digest.as_bytes());
     Ok(Some(m.finish()))
@@ -539,6 +548,79 @@ mod test {
     use crate::util::{HASH_BUFFER_SIZE, MAX_TIME_MACRO_HAYSTACK_LEN};
 
     use super::*;
+
+    /// Records `headers` (as the include recorder does) and returns the entry.
+    fn record(
+        headers: &[&Path],
+        config: PreprocessorCacheModeConfig,
+        start: SystemTime,
+    ) -> PreprocessorCacheEntry {
+        let files: Vec<_> = headers
+            .iter()
+            .map(|path| {
+                let file = std::fs::File::open(path).unwrap();
+                let digest = if config.ignore_time_macros {
+                    Digest::reader_sync(file).unwrap()
+                } else {
+                    let (digest, finder) = Digest::reader_sync_time_macros(file).unwrap();
+                    let mtime = std::fs::metadata(path).unwrap().modified().unwrap();
+                    include_file_digest(digest, &finder, Some(mtime.into())).unwrap()
+                };
+                (digest, path.to_path_buf())
+            })
+            .collect();
+        let mut entry = PreprocessorCacheEntry::new();
+        entry.add_result(start, "result", files);
+        entry
+    }
+
+    #[test]
+    fn test_lookup_checks_every_include() {
+        let dir = tempfile::tempdir().unwrap();
+        let (a, b) = (dir.path().join("a.h"), dir.path().join("b.h"));
+        std::fs::write(&a, "int a;\n").unwrap();
+        std::fs::write(&b, "int b;\n").unwrap();
+        for ignore_time_macros in [false, true] {
+            std::fs::write(&b, "int b;\n").unwrap();
+            let config = PreprocessorCacheModeConfig {
+                ignore_time_macros,
+                ..PreprocessorCacheModeConfig::activated()
+            };
+            let mut entry = record(&[&a, &b], config, SystemTime::now());
+            let mut updated = false;
+            assert_eq!(
+                entry.lookup_result_digest(config, &mut updated),
+                Some("result".to_string())
+            );
+            // Same size, different contents, not the first include.
+            std::fs::write(&b, "int c;\n").unwrap();
+            assert_eq!(entry.lookup_result_digest(config, &mut updated), None);
+        }
+    }
+
+    #[test]
+    fn test_lookup_compares_includes_with_date_macro() {
+        let dir = tempfile::tempdir().unwrap();
+        let a = dir.path().join("a.h");
+        std::fs::write(&a, "// __DATE__ __TIMESTAMP__\nint a;\n").unwrap();
+        let config = PreprocessorCacheModeConfig::activated();
+        let mut entry = record(&[&a], config, SystemTime::now());
+        let mut updated = false;
+        assert_eq!(
+            entry.lookup_result_digest(config, &mut updated),
+            Some("result".to_string())
+        );
+        // Looking up does not change the entry
+        assert_eq!(
+            entry.lookup_result_digest(config, &mut updated),
+            Some("result".to_string())
+        );
+        assert!(!updated);
+        let mtime = std::fs::metadata(&a).unwrap().modified().unwrap();
+        std::fs::write(&a, "// __DATE__ __TIMESTAMP__\nint b;\n").unwrap();
+        filetime::set_file_mtime(&a, mtime.into()).unwrap();
+        assert_eq!(entry.lookup_result_digest(config, &mut updated), None);
+    }
 
     #[test]
     fn test_find_time_macros_empty_file() {
